@@ -21,6 +21,16 @@ BASE = ("qkeras from /repo working tree on tf_keras 2.21 (TF_USE_LEGACY_KERAS=1)
 TECH = "deterministic simulation with fault injection: "
 
 CHECKS = {
+    "C13": ("M", "exploration",
+            "Restart of a whole model with real I/O: generated quantized models over every layer class of the custom-object table are rebuilt from JSON, the library clone, HDF5 on a scratch path, HDF5 through a simulated file object under h5py's file-object driver, and a weights file, at arbitrary points of a history (weight perturbations, an export, a completed noise schedule that left variable-backed knobs, compile); predictions must be bit-identical and layers must report the same quantizers, with no custom objects. Disk faults (ENOSPC/EIO at the n-th write, short writes, crash with only flushed bytes surviving) are injected into model.save: the live model must stay untouched and a subsequent complete save must round-trip. Sampling, not proof.",
+            BASE + "crash granularity = write/flush calls h5py issues on the file object; the content of a torn file is counted, not judged (the property does not say what a truncated HDF5 must do); QConv2DTranspose excluded (cannot run on TF 2.21).",
+            TECH + "restart-from-durable-state histories on generated models, SimFile disk with injected write errors/short writes/crashes, read-only invariant on the live model",
+            "4 C13"),
+    "C14": ("M", "fault_enumeration",
+            "The export is an interruptible sequence of in-place writes plus a file write. Per generated model every crash point is enumerated (the k-th layer.set_weights raises for every k, and the final save_weights raises), then a clean export must satisfy the per-layer relation and, for data-independent scales, equal an uninterrupted export exactly. After every completed export: stored weights = role quantizer (paired through variable names, not get_quantizers order) applied once; dictionary consistent (po2 sign*2^exponent aligned by index, auto_po2 scale entry and integer relation, BN-fusing algebra on quantized parameters); written file reloads to the exported weights; data-independent / frozen models keep predictions and a second export changes nothing. Models and weights are sampled.",
+            BASE + "crash points are layer boundaries (instance-level wrapper on set_weights/save_weights), not inside a TF/HDF5 call; folded conv+BN layers are not exported by design and not judged here; three recorded known findings (known_findings.json).",
+            TECH + "fault enumeration over export crash points per generated model + seeded export/perturb/freeze histories; role-based reference oracle",
+            "4 C14"),
     "C07": ("Q+T", "exploration",
             "Quantizer half: the knob is mutable state (python float or tf.Variable); seeded orders of update (float/const/Variable argument), variable build, tf.function trace, set_trainable and restart around calls; after every call y = surrogate + f*(fully quantized sibling - surrogate), f=1 bit-identical to the sibling, constructor-constant sibling agrees, a trace taken after the variable build follows later updates. Scheduler half: a virtual step clock emits Keras callback event sequences (interrupted fits, repeated fits with one callback, resumes with a fresh callback, duplicated train_begin, clock jumps) against the real QNoiseScheduler and real models; at every update step every knob-bearing quantizer found by an independent attribute walk carries 0 before start, 1 from finish, the documented curve between, never decreasing; real model.fit runs validate the simulated event source. Sampling, not proof.",
             BASE + "simulated fits do not train weights (the property does not depend on them); traces taken before the variable build and traced auto-scale quantizers are not judged (TensorFlow constant capture / graph float reassociation).",
